@@ -97,7 +97,7 @@ fn bound(slot: &str) -> bool {
         "bundled_position", "fee_tier", "adaptive_fee_tier", "token_mint_a", "token_mint_b", "token_mint_input",
         "token_mint_intermediate", "token_mint_output", "position_bundle_mint",
     ];
-    EXACT.contains(&slot) || slot.starts_with("token_vault_") || slot.starts_with("tick_array_") || slot.starts_with("existing_tick_array_") || slot.starts_with("new_tick_array_")
+    EXACT.contains(&slot) || slot.starts_with("remaining_") || slot.starts_with("token_vault_") || slot.starts_with("tick_array_") || slot.starts_with("existing_tick_array_") || slot.starts_with("new_tick_array_")
 }
 /// user-owned token accounts: a substitute of another mint must fail, one of the same mint may pass
 fn user_token_slot(slot: &str) -> bool {
@@ -116,6 +116,19 @@ pub fn extra_goldens(bs: &mut Base) -> Vec<Golden> {
         }
         let ix = w.swap_ix(p, trader, 1_000_000, u64::MAX, 0, false, false, true);
         push(&format!("swap_v2[{label}]"), ix, Some(p), None);
+    }
+    // swap_v2 with supplemental tick arrays: all three arrays of the path exist, two more arrays of the pool ride along
+    for (p, label, a_to_b) in [(bs.p_a, "spl", true), (bs.p_a3, "spl128", false)] {
+        let st = w.pool_state(p);
+        let tia = 88 * st.tick_spacing as i32;
+        let dir = if a_to_b { -1 } else { 1 };
+        for k in 0..3 {
+            w.ensure_tick_array(p, st.tick_current_index + dir * k * tia, k % 2 == 0);
+        }
+        let s1 = w.ensure_tick_array(p, st.tick_current_index - dir * tia, true);
+        let s2 = w.ensure_tick_array(p, st.tick_current_index - dir * 2 * tia, false);
+        let ix = w.swap_ix(p, trader, 1_000_000, 0, 0, true, a_to_b, true);
+        push(&format!("swap_v2[{label}+supplemental]"), crate::monitors::c10::with_supplemental(&ix, &[s1, s2]), Some(p), None);
     }
     // two-hop through p_a and p_a2 (they share one mint)
     let route = crate::hist::Hist::two_hop_routes(w).into_iter().find(|r| r.0 == bs.p_a && r.1 == bs.p_a2).expect("two-hop route");
@@ -147,7 +160,7 @@ pub fn run(tier: Tier, seed: u64) -> i32 {
     let mut rep = Report::new("C15", tier, seed);
     rep.exhaustive = true;
     rep.level = "fault_enumeration";
-    rep.rule = "enumeration: for every fund-moving instruction (swap x2, two-hop x2, increase x3, decrease x2, reposition, collect fees x2, collect reward x2, collect protocol fees x2, set-emissions x2, initialize reward x2, update-fees, close/reset/lock/transfer/bundle family, pool-level setters) a golden invocation that must succeed, then for every account slot that is bound by the property (pool, vaults, tick arrays, oracle, position, mints, reward vault, token/memo/system/ATA programs, config, lock config, bundle) every other account of the same kind found in the bank is substituted (vault <- every other token account of the same mint incl. other pools' vaults, the pool's own reward vaults and user accounts; tick array / oracle / position <- those of other pools; mint <- other mints; program <- other executables ...): the instruction must fail. User-owned token account slots are substituted with accounts of another mint (must fail). Pair substitutions: position + its token account of a position in another pool (same owner), once holding liquidity and once empty (early-return paths for zero liquidity must not skip the pool check); second leg of a two-hop replaced by the first pool. v1 instructions (increase, decrease, swap, collect fees, collect protocol fees) on a pool over two extension-less Token-2022 mints with either token program in the slot must fail. distinct = (instruction, slot, kind of substitute)".into();
+    rep.rule = "enumeration: for every fund-moving instruction (swap x2, two-hop x2, increase x3, decrease x2, reposition, collect fees x2, collect reward x2, collect protocol fees x2, set-emissions x2, initialize reward x2, update-fees, close/reset/lock/transfer/bundle family, pool-level setters) a golden invocation that must succeed, then for every account slot that is bound by the property (pool, vaults, tick arrays, oracle, position, mints, reward vault, token/memo/system/ATA programs, config, lock config, bundle) every other account of the same kind found in the bank is substituted (supplemental tick arrays of swap_v2 included; vault <- every other token account of the same mint incl. other pools' vaults, the pool's own reward vaults and user accounts; tick array / oracle / position <- those of other pools; mint <- other mints; program <- other executables ...): the instruction must fail. User-owned token account slots are substituted with accounts of another mint (must fail). Every token account / mint slot is also given a byte-identical twin owned by a program that is not a token program (random id; ids sharing the last byte with Token / Token-2022): must fail. Pair substitutions: position + its token account of a position in another pool (same owner), once holding liquidity and once empty (early-return paths for zero liquidity must not skip the pool check); second leg of a two-hop replaced by the first pool. v1 instructions (increase, decrease, swap, collect fees, collect protocol fees) on a pool over two extension-less Token-2022 mints with either token program in the slot must fail. distinct = (instruction, slot, kind of substitute)".into();
     rep.assumptions = vec!["the bound/free classification of slots is written in the harness from the property statement".into(), "substitutes are the accounts present in the catalogue world (6 pools over shared and disjoint mints, 2 configs, reward vaults holding pool mints)".into()];
     let mut acc = Acc::default();
     let flavours = tier.pick(1, 3);
@@ -170,7 +183,33 @@ pub fn run(tier: Tier, seed: u64) -> i32 {
         }
         let mut gs: Vec<Golden> = goldens(&mut bs).into_iter().filter(|g| g.pool.is_some() || g.position.is_some()).collect();
         gs.extend(extra_goldens(&mut bs));
-        let bank = bs.w.bank.clone();
+        let mut bank = bs.w.bank.clone();
+        // forged twins of every token account / mint named by a golden: byte-identical data, but owned by a program that
+        // is not a token program - a random id, and ids that share the last byte with Token / Token-2022 (loaders that
+        // dispatch on one byte of the owner must still compare the whole id)
+        let mut forged: std::collections::BTreeMap<Pubkey, Vec<(Pubkey, &'static str)>> = Default::default();
+        for g in &gs {
+            for m in &g.ix.metas {
+                if forged.contains_key(&m.key) {
+                    continue;
+                }
+                let Some(a) = bank.get(&m.key).cloned() else { continue };
+                if !matches!(kind_of(&a), Kind::TokenAccount(_) | Kind::Mint) {
+                    continue;
+                }
+                let mut twins = vec![];
+                for (what, last) in [("not_owned_by_a_token_program", None), ("owner_shares_last_byte_with_token", Some(crate::world::TOKEN.to_bytes()[31])), ("owner_shares_last_byte_with_token_2022", Some(TOKEN22.to_bytes()[31]))] {
+                    let mut owner: [u8; 32] = bs.w.new_key().to_bytes();
+                    if let Some(b) = last {
+                        owner[31] = b;
+                    }
+                    let k = bs.w.new_key();
+                    bank.set(k, Acct { lamports: a.lamports, data: a.data.clone(), owner: Pubkey::new_from_array(owner), executable: false });
+                    twins.push((k, what));
+                }
+                forged.insert(m.key, twins);
+            }
+        }
         // index the bank by kind
         let all: Vec<(Pubkey, Kind)> = bank.accts.iter().map(|(k, a)| (*k, kind_of(a))).collect();
         for g in &gs {
@@ -199,6 +238,17 @@ pub fn run(tier: Tier, seed: u64) -> i32 {
                 seen_keys.push((m.name, m.key));
                 let Some(acct) = bank.get(&m.key) else { continue };
                 let k = kind_of(acct);
+                if let Some(twins) = forged.get(&m.key) {
+                    for (tk, what) in twins {
+                        let mut i = g.ix.clone();
+                        for x in i.metas.iter_mut() {
+                            if x.name == m.name {
+                                x.key = *tk;
+                            }
+                        }
+                        subs.push((m.name.to_string(), format!("token_account_or_mint_{what}"), i));
+                    }
+                }
                 let is_bound = bound(m.name);
                 let is_user_tok = user_token_slot(m.name);
                 if !is_bound && !is_user_tok {
@@ -351,6 +401,7 @@ pub fn run(tier: Tier, seed: u64) -> i32 {
     rep.floor("rejected:another_pool", 100);
     rep.floor("rejected:position_of_another_pool_with_its_token", 30);
     rep.floor("rejected:empty_position_of_another_pool_with_its_token", 30);
+    rep.floor("rejected:token_account_or_mint_owner_shares_last_byte_with_token_2022", 100);
     rep.floor("rejected:another_program", 100);
     rep.floor("rejected:oracle_of_another_pool", 5);
     rep.finish()
